@@ -127,5 +127,5 @@ def sizing_():
 
 
 PARTS = [
-    Part('sessions', 'hyp', run_case, strategy=cases(), quick=1200, thorough=64000, quick_shards=8),
+    Part('sessions', 'hyp', run_case, strategy=cases(), quick=1600, thorough=64000, quick_shards=8),
 ]
